@@ -1129,6 +1129,11 @@ static iwrc _jbl_ptr_pool(const char *path, struct jbl_ptr **jpp, struct iwpool 
             *(jp->n[cnt] + k) = '~';
           } else if (path[i + 1] == '1') {
             *(jp->n[cnt] + k) = '/';
+          } else { // '~' must be followed by '0' or '1' (RFC 6901)
+            if (!pool) {
+              free(jp);
+            }
+            return JBL_ERROR_JSON_POINTER;
           }
           ++i;
         } else {
